@@ -77,9 +77,9 @@ static bool write_replay(const std::string &path, const RunSpec &rs, const Progr
   fprintf(f, "seed %" PRIu64 "\nstatus %d\ncls %s\nmsg %s\ntrace_hash %" PRIu64 "\n", rs.seed, rs.status, rs.cls.c_str(),
           rs.msg.c_str(), rs.trace_hash);
   const dsim::Config &c = rs.cfg;
-  fprintf(f, "cfg %d %d %d %d %d %d %d %d %d %d %" PRIu64 " %d %" PRIu64 " %" PRIu64 "\n", c.strategy, c.pct_depth, c.pct_len,
+  fprintf(f, "cfg %d %d %d %d %d %d %d %d %d %d %" PRIu64 " %d %" PRIu64 " %" PRIu64 " %d %d\n", c.strategy, c.pct_depth, c.pct_len,
           c.sticky_percent, c.cas_spurious_permille, c.oversleep_permille, c.eintr_permille, c.stall_permille, c.stall_max,
-          c.spin_bound, c.max_steps, c.plain_sched ? 1 : 0, c.sched_seed, c.fault_seed);
+          c.spin_bound, c.max_steps, c.plain_sched ? 1 : 0, c.sched_seed, c.fault_seed, c.tso ? 1 : 0, c.tso_drain_percent);
   fprintf(f, "params %zu", p.params.size());
   for (auto v : p.params) fprintf(f, " %" PRId64, v);
   fprintf(f, "\nthreads %zu\n", p.threads.size());
@@ -125,11 +125,12 @@ static bool read_replay(const std::string &path, RunSpec &rs, Program &p)
     else if (key == "trace_hash") rs.trace_hash = strtoull(val.c_str(), nullptr, 10);
     else if (key == "cfg") {
       dsim::Config &c = rs.cfg;
-      int ps = 0;
-      sscanf(val.c_str(), "%d %d %d %d %d %d %d %d %d %d %" SCNu64 " %d %" SCNu64 " %" SCNu64, &c.strategy, &c.pct_depth, &c.pct_len,
+      int ps = 0, tso = 0;
+      sscanf(val.c_str(), "%d %d %d %d %d %d %d %d %d %d %" SCNu64 " %d %" SCNu64 " %" SCNu64 " %d %d", &c.strategy, &c.pct_depth, &c.pct_len,
              &c.sticky_percent, &c.cas_spurious_permille, &c.oversleep_permille, &c.eintr_permille, &c.stall_permille, &c.stall_max,
-             &c.spin_bound, &c.max_steps, &ps, &c.sched_seed, &c.fault_seed);
+             &c.spin_bound, &c.max_steps, &ps, &c.sched_seed, &c.fault_seed, &tso, &c.tso_drain_percent);
       c.plain_sched = ps != 0;
+      c.tso = tso != 0;
     } else if (key == "params") {
       std::istringstream is(val);
       size_t k;
@@ -400,8 +401,9 @@ static std::vector<uint8_t> drop_thread_choices(const std::vector<uint8_t> &c, i
 {
   std::vector<uint8_t> o;
   for (auto x : c) {
-    if (x == vt) continue;
-    o.push_back(static_cast<uint8_t>(x > vt ? x - 1 : x));
+    const int flag = x & 0x80, id = x & 0x7f;  // 0x80: "drain one store-buffer entry of vthread id" (TSO mode)
+    if (id == vt) continue;
+    o.push_back(static_cast<uint8_t>(flag | (id > vt ? id - 1 : id)));
   }
   return o;
 }
@@ -725,7 +727,7 @@ static int cmd_explore(std::map<std::string, std::string> &a)
          ", \"switches_in_api\": %" PRIu64 ", \"sim_ns\": %" PRIu64 ", \"spin_blocks\": %" PRIu64 ", \"grace_phases\": %" PRIu64
          ", \"uaf_notes\": %" PRIu64 ", \"states\": %" PRIu64 ", \"wall_s\": %.3f, \"next_index\": %" PRIu64 ", \"last_index\": %" PRIu64,
          evals, nontrivial, steps, switches, sw_api, sim_ns, spin_blocks, graces, uaf_notes, dsim::distinct_states(), wall, idx, last_index);
-  static const char *fn[] = {"preempt", "stall", "cas_spurious", "oversleep", "eintr", "thread_exit", "thread_restart", "plain_preempt"};
+  static const char *fn[] = {"preempt", "stall", "cas_spurious", "oversleep", "eintr", "thread_exit", "thread_restart", "plain_preempt", "store_buffered"};
   printf(", \"faults\": {");
   for (int k = 0; k < dsim::kFaultKinds; ++k) printf("%s\"%s\": %" PRIu64, k ? ", " : "", fn[k], faults[k]);
   printf("}, \"strategies\": {\"random\": %" PRIu64 ", \"sticky\": %" PRIu64 ", \"pct\": %" PRIu64 ", \"stall\": %" PRIu64 ", \"sequential\": %" PRIu64 "}",
